@@ -13,6 +13,7 @@ from __future__ import annotations
 
 from ..core import MachineryError
 from ..divisions import KINDS, Verdicts, dd, frame_of, guarded, label_of, observe_as_ranks, parallel_tlc_cases, source_of
+from ..frameobs import observe
 from ..par import pmap
 
 META = {
@@ -40,11 +41,87 @@ ROW_CLAUSES = {"SameRows", "LabelsKept", "Sorted", "Truthful"}
 
 
 # ----------------------------------------------------------------------------- one case on real dask
+def derive(src, pre, case, kind):
+    """The lazy step a DERIVED source goes through before the judged repartition (family "nd")."""
+    ddm = dd()
+    if pre == "head":
+        return src.head(2, compute=False)
+    if pre == "tail":
+        return src.tail(2, compute=False)
+    if pre == "filter":
+        return src[src.rid % 3 != 1]
+    if pre == "proj":
+        return src[["rid"]]
+    if pre == "loc":
+        return src.loc[label_of(min(case["idx"]), kind):]
+    if pre == "setidx":
+        return src.reset_index().set_index("index")
+    if pre == "concat":
+        return ddm.concat([src, src[src.rid < 0]])
+    raise MachineryError("unknown derivation %r" % pre)
+
+
+def _truthful(divs, parts):
+    if not divs:
+        return True
+    if len(divs) != len(parts) + 1 or any(a > b for a, b in zip(divs, divs[1:])):
+        return False
+    for i, p in enumerate(parts):
+        for r in p:
+            if not (divs[i] <= r["idx"] and (r["idx"] <= divs[i + 1] if i == len(parts) - 1 else r["idx"] < divs[i + 1])):
+                return False
+    return True
+
+
+def apply_derived(case):
+    """Family "nd": source -> lazy step -> repartition(npartitions=n).  The derived collection is observed first and
+    becomes the source of the record (its rows renumbered 0.. in order); a derived collection that cannot be built,
+    is not truthful or whose metadata disagrees with its partitions is another property's business: skipped."""
+    arg = case["arg"]
+
+    def go():
+        src = source_of(case["idx"], case["layout"], case["sdivs"], "int")
+        try:
+            y0 = derive(src, arg["pre"], case, "int")
+            o0 = observe(y0, whole_too=False)
+        except NotImplementedError:
+            raise
+        except Exception as ex:  # noqa: BLE001
+            from ..frames import is_shim_error
+            if is_shim_error(ex):
+                raise
+            return {"skip": "derived source (%s) raised %s" % (arg["pre"], type(ex).__name__)}
+        rids = [r["rid"] for p in o0["parts"] for r in p]
+        if len(set(rids)) != len(rids) or o0["nparts"] != len(o0["parts"]) or not _truthful(o0["divs"], o0["parts"]):
+            return {"skip": "derived source (%s) is itself inconsistent" % arg["pre"]}
+        return o0, observe(y0.repartition(npartitions=arg["n"]), whole_too=True)
+
+    res = guarded(go)
+    if isinstance(res, dict):
+        if "skip" in res:
+            return res
+        res.pop("msg", None)
+        # the repartition itself raised: the source of the record is rebuilt without the judged step
+        o0 = guarded(lambda: observe(derive(source_of(case["idx"], case["layout"], case["sdivs"], "int"), arg["pre"], case, "int"),
+                                     whole_too=False))
+        if "skip" in o0 or o0.get("raised"):
+            return {"skip": "derived source (%s) raised" % arg["pre"]}
+        obs = res
+    else:
+        o0, obs = res
+    order = {r["rid"]: i for i, r in enumerate(r for p in o0["parts"] for r in p)}
+    obs = dict(obs, parts=[[{"rid": order.get(r["rid"], -1), "idx": r["idx"]} for r in p] for p in obs["parts"]])
+    return {"op": "repart", "kind": "int", "fam": "nd", "idx": [r["idx"] for p in o0["parts"] for r in p],
+            "layout": [len(p) for p in o0["parts"]], "sdivs": list(o0["divs"]), "arg": dict(arg), "obs": obs, "case": case}
+
+
 def apply_case(case, kind):
     """Build the source, apply the request, observe.  Returns a record (op, idx, layout, sdivs, arg, obs)
     with all labels as integers, or {"skip": reason}."""
     ddm = dd()
     fam, arg = case["fam"], case["arg"]
+    if arg.get("pre"):
+        return apply_derived(case)
     known = set(case["idx"]) | set(case.get("sdivs", [])) | set(arg.get("d", []))
 
     def go():
@@ -97,14 +174,19 @@ def classify(rec, clauses):
     if rec["op"] == "from_pandas":
         srt = "sorted-input" if list(case["idx"]) == sorted(case["idx"]) else "unsorted-input"
         return "from_pandas:%s:sort=%s:%s:%s" % ("npartitions" if arg["mode"] == "n" else "chunksize", bool(arg["sort"]), srt, group)
-    known = "known-divs" if case["sdivs"] else "unknown-divs"
-    nsrc = len(case["layout"])
+    sdivs, layout = rec.get("sdivs", case["sdivs"]), rec.get("layout", case["layout"])     # family "nd": the derived source
+    known = "known-divs" if sdivs else "unknown-divs"
+    nsrc = len(layout)
     if arg["k"] == "n":
         direction = "more" if arg["n"] > nsrc else "fewer" if arg["n"] < nsrc else "same"
         # the code path: known numeric/datetime divisions are interpolated when the count grows, otherwise partitions
         # are split evenly / concatenated
-        path = ("interpolated" if rec["kind"] != "str" else "split") if (direction == "more" and case["sdivs"]) else \
+        path = ("interpolated" if rec["kind"] != "str" else "split") if (direction == "more" and sdivs) else \
                {"more": "split", "fewer": "concat", "same": "identity"}[direction]
+        if arg.get("pre") and not (group == "count" and path == "interpolated"):
+            # a lazy step sits under the repartition: optimizer rewrites of that pair are the call site (a pure count
+            # deviation on interpolated divisions is the documented approximation whatever the source went through)
+            return "repartition:npartitions:after-%s:%s:%s:%s" % (arg["pre"], direction, known, group)
         return "repartition:npartitions:%s:%s:%s:%s" % (direction, known, path, group)
     if arg["k"] == "d":
         return "repartition:divisions:force=%s:%s:%s" % (bool(arg["force"]), known, group)
@@ -115,8 +197,8 @@ def classify(rec, clauses):
 def bounds(ctx):
     B = lambda rows, labels, parts, maxn, maxd, urows: dict(rows=rows, labels=labels, parts=parts, maxn=maxn, maxd=maxd, urows=urows)  # noqa: E731
     if ctx.quick:
-        return {"n": B(3, 3, 3, 6, 2, 0), "d": B(2, 2, 2, 3, 2, 0), "size": B(3, 2, 2, 3, 2, 0), "fp": B(4, 3, 1, 5, 2, 3)}
-    return {"n": B(6, 3, 4, 6, 2, 4), "d": B(3, 3, 3, 3, 2, 0), "size": B(4, 3, 3, 3, 2, 3), "fp": B(6, 3, 1, 6, 2, 6)}
+        return {"n": B(3, 3, 3, 6, 2, 0), "nd": B(3, 2, 2, 4, 2, 0), "d": B(2, 2, 2, 3, 2, 0), "size": B(3, 2, 2, 3, 2, 0), "fp": B(4, 3, 1, 5, 2, 3)}
+    return {"n": B(6, 3, 4, 6, 2, 4), "nd": B(4, 3, 3, 5, 2, 3), "d": B(3, 3, 3, 3, 2, 0), "size": B(4, 3, 3, 3, 2, 3), "fp": B(6, 3, 1, 6, 2, 6)}
 
 
 def enumerate_cases(ctx, bnds, label="design+cases"):
@@ -186,6 +268,8 @@ def random_cases(rng, n):
                 sdivs = []
         if fam == "n":
             arg = {"k": "n", "n": rng.randint(1, 9)}
+            if rng.random() < 0.35:
+                fam, arg["pre"] = "nd", rng.choice(["head", "tail", "filter", "proj", "loc", "setidx", "concat"])
         elif fam == "size":
             arg = {"k": "size", "bytes": rng.choice([8, 16, 40, 100, 160, 1000])}
         else:
@@ -230,7 +314,7 @@ def run(ctx):
     byfam = {}
     for c in cases:
         byfam.setdefault(c["c"]["fam"], []).append(c["c"])
-    quota = ctx.pick({"n": 1500, "d": 1100, "size": 200, "fp": 700}, {"n": 16000, "d": 10000, "size": 2000, "fp": 6000})
+    quota = ctx.pick({"n": 1300, "nd": 900, "d": 1000, "size": 150, "fp": 600}, {"n": 14000, "nd": 9000, "d": 9000, "size": 2000, "fp": 6000})
     items = []
     for fam in sorted(byfam):
         pool = byfam[fam]
@@ -257,7 +341,7 @@ def run(ctx):
                           % (rec["op"], clauses, rec["obs"]["nparts"], rec["obs"]["divs"], len(rec["obs"]["parts"]),
                              ", compute() raised " + rec["obs"]["wholeraised"] if rec["obs"].get("wholeraised") else ""),
                           {"case": rec["case"], "kind": rec["kind"], "clauses": clauses, "observed": rec["obs"]})
-    for fam in ("n", "d", "fp"):
+    for fam in ("n", "nd", "d", "fp"):
         ex = next((r for r in recs if r["fam"] == fam and nontrivial(r)), None)
         if ex:
             ctx.sample({"case": ex["case"], "kind": ex["kind"], "observed": ex["obs"]})
